@@ -405,7 +405,8 @@ Theorem open_crash_ok maxsz t ci cd (cm : bool) :
        exists f f', dget (efile e) (t_data t) = Some f /\ dget (efile e) (t_data t') = Some f' /\
                     eoff e <= fsize f' /\
                     firstn (N.to_nat (eoff e)) (fbytes f') = firstn (N.to_nat (eoff e)) (fbytes f)) /\
-    t_msyn t' = t_mcur t' /\ mvtail (t_mcur t') = t_hidden t' /\ mflush (t_mcur t') = mflush (t_mcur t).
+    t_msyn t' = t_mcur t' /\ mvtail (t_mcur t') = t_hidden t' /\ mflush (t_mcur t') = mflush (t_mcur t) /\
+    t_headbytes t' = eoff (lastF t).
 Proof.
   intros (HI & DG & DH & DI & DJ & DL & DN & DO & DP) [Hci Hcd] vt.
   destruct (synced_facts maxsz t HI) as (HF & HP & Hwfh & Hvs & Hsms & Hsub & Htl & Hlh & Hitems & Hmono).
@@ -500,7 +501,7 @@ Proof.
   2:{ split; [exact D2|]. split; [exact D5|]. split; [exact D1|]. split; [rewrite D3, D1; reflexivity|].
       split; [exact Hrest'|]. split; [exact D4|]. split.
       - intros e He. destruct (Hdata e He) as (f & f' & X1 & X2 & X3 & _ & X5). exists f, f'. repeat split; assumption.
-      - split; [exact D9|]. rewrite D8, D3. cbn [mvtail mflush]. split; reflexivity. }
+      - split; [exact D9|]. rewrite D8, D3. cbn [mvtail mflush]. split; [reflexivity|]. split; [reflexivity|exact D6]. }
   (* DInv t' *)
   assert (Hsyn' : synced_of t' = syn).
   { unfold synced_of, nsynced. rewrite Hrest', D8. cbn [mflush]. rewrite HF.
